@@ -521,6 +521,12 @@ X6_ELF_READ_GUARD = "ad49ef43b6d602e7ae6cbfa4457d008915cdfaaef611d7ec4df2b98d8bd
 SELECTED += [("_Validator._process_description_content_type", "packaging.metadata", "_Validator._process_description_content_type")]
 X6_FUNCTIONS |= {("packaging.metadata", "_Validator._process_description_content_type")}
 ORACLE_CALLS["packaging.metadata"] |= {"EmailMessage.set_content_type"}
+# x6: `_Validator.__get__`: the instance `__dict__` is the field list of the object (`cache[k] = v` is a functional update of
+# `instance`), `del instance._raw[k]` updates the `_raw` field, the reflective `getattr(self, f"_process_{self.name}")` is a
+# dispatcher over the `_process_*` methods the class defines; the function hands back `(value, instance)`
+SELECTED += [("_Validator.__get__", "packaging.metadata", "_Validator.__get__")]
+X6_FUNCTIONS |= {("packaging.metadata", "_Validator.__get__")}
+X6_MD_IMPORT = "PkgModel.PyMd"
 # --- x6 end -----------------------------------------------------------------------------------------------------------
 
 
@@ -3733,6 +3739,14 @@ class Fn:
                 if a[0].value not in self.x3_oracles():
                     raise Unsupported(f"{a[0].value} is not an oracle of this module")
                 return False, f'PyRt.ext_call {self.use_ext()} "{a[0].value}" [' + ", ".join(self.val(x) for x in a[1:]) + "]"
+            if f.id == "__x6_setattr_dyn":
+                self.ctx.imports.add(X6_MD_IMPORT)
+                return False, f"PyMd.setattr_dyn {self.val(a[0])} {self.val(a[1])} {self.val(a[2])}"
+            if f.id == "__x6_del_item":
+                self.ctx.imports.add(X6_MD_IMPORT)
+                return False, f'PyMd.del_field_item {self.val(a[0])} "{a[1].value}" {self.val(a[2])}'
+            if f.id == "__x6_process":
+                return False, self.x6_process_dispatcher() + f" {self.use_ext()} {self.val(a[0])} {self.val(a[1])}"
             if f.id == "__x6_bitand":
                 return False, f"PyPlat.bitand {self.val(a[0])} {self.val(a[1])}"
             r = self.x6_elf_call(e, kws)
@@ -3769,6 +3783,26 @@ class Fn:
                 name = self.ctx.require(v, name=m.__name__.split(".")[-1] + "." + v.__qualname__)
                 return False, self.call_selected(name, self.bind_args(v, e.args, kws))
         return None
+
+    def x6_process_dispatcher(self):
+        """`getattr(self, f"_process_{self.name}")(value)` with the `AttributeError` fall-through: a chain of tests on `self.name`
+        over the `_process_*` methods the class defines now (a method added or removed changes the definition)"""
+        c = self.owner
+        dname = f"{c.__name__}._process__dyn"
+        if dname not in self.ctx.dispatchers:
+            body, deps = "", set()
+            for n, impl in vars(c).items():
+                if n.startswith("_process_") and inspect.isfunction(impl):
+                    fn = self.ctx.require(impl)
+                    deps.add(fn)
+                    ext = " ext" if fn in self.ctx.uses_ext else ""
+                    body += f"if PyVal.eq __n (PyVal.str {lstr(n[len('_process_'):])}) then {fn}{ext} self value else "
+            body += "pure value"
+            self.ctx.dispatchers[dname] = (f"def {dname} (ext : PyRt.Oracle) (self value : PyVal) : M PyVal := do\n"
+                                           f"  let __n ← PyRt.getattr self \"name\"\n  {body}")
+            self.ctx.dispatcher_deps[dname] = deps
+        self.ctx.deps.setdefault(self.ctx.current, set()).add(dname)
+        return dname
 
     def x6_elf_call(self, e, kws):
         f, a = e.func, e.args
@@ -3843,6 +3877,9 @@ class _X6Rewrite(ast.NodeTransformer):
                     if len(stores) == 1 and isinstance(stores[0].slice, ast.Constant) and stores[0].slice.value == "content-type":
                         self.msg_locals.add(name)
             self._params_locals = self.params_locals_scan()
+        if self.md and self.fn.pyfunc.__qualname__ == "_Validator.__get__":
+            node.body = self.validator_get(node)
+            return node
         node.body = self.block(node.body)
         return node
 
@@ -3907,6 +3944,92 @@ class _X6Rewrite(ast.NodeTransformer):
             node.value = ast.Name(id=t, ctx=ast.Load())
         r = self.x6_visit_assign(node)
         return pre + (r if isinstance(r, list) else [r]) if pre else r
+
+    def validator_get(self, node):
+        """`_Validator.__get__(self, instance, _owner)`: see the comment at `X6_FUNCTIONS`; every statement must have one of the
+        shapes below, anything else is left for the translator to refuse"""
+        me, inst = node.args.args[0].arg, node.args.args[1].arg
+        name = lambda n, ctx=ast.Load: ast.Name(id=n, ctx=ctx())
+        alias = None
+        out = []
+
+        def is_attr(e, obj, attr):
+            return isinstance(e, ast.Attribute) and e.attr == attr and isinstance(e.value, ast.Name) and e.value.id == obj
+
+        class Expr(ast.NodeTransformer):
+            def visit_Call(s2, c):
+                c = s2.generic_visit(c)
+                f = c.func
+                if isinstance(f, ast.Attribute) and f.attr == "get" and is_attr(f.value, inst, "_raw") and len(c.args) == 1 and not c.keywords:
+                    return self.call("__x6_dict_get", f.value, c.args[0], ast.Constant(None))
+                return c
+
+            def visit_Compare(s2, c):
+                c = s2.generic_visit(c)
+                r = c.comparators[0] if len(c.ops) == 1 else None
+                if isinstance(r, ast.Name) and isinstance(c.ops[0], (ast.In, ast.NotIn)) and self.is_global(r.id) \
+                        and isinstance(self.g[r.id], frozenset) and all(isinstance(x, str) for x in self.g[r.id]):
+                    c.comparators = [ast.Tuple(elts=[ast.Constant(x) for x in sorted(self.g[r.id])], ctx=ast.Load())]
+                return c
+
+        def stmts(body):
+            nonlocal alias
+            res = []
+            for st in body:
+                if isinstance(st, ast.Expr) and isinstance(st.value, ast.Constant):
+                    continue
+                if isinstance(st, ast.Assign) and len(st.targets) == 1 and isinstance(st.targets[0], ast.Name) \
+                        and is_attr(st.value, inst, "__dict__") and alias is None:
+                    alias = st.targets[0].id                     # `cache = instance.__dict__`
+                    continue
+                if isinstance(st, ast.Try) and len(st.body) == 1 and isinstance(st.body[0], (ast.Assign, ast.AnnAssign)) and not st.finalbody \
+                        and len(st.handlers) == 1 and isinstance(st.handlers[0].type, ast.Name) and st.handlers[0].type.id == "AttributeError" \
+                        and len(st.handlers[0].body) == 1 and isinstance(st.handlers[0].body[0], ast.Pass) and len(st.orelse) == 1:
+                    b, e = st.body[0], st.orelse[0]
+                    v = b.value
+                    bt = b.targets[0] if isinstance(b, ast.Assign) else b.target
+                    conv = bt.id if isinstance(bt, ast.Name) else None
+                    ok = isinstance(v, ast.Call) and isinstance(v.func, ast.Name) and v.func.id == "getattr" and len(v.args) == 2 \
+                        and isinstance(v.args[0], ast.Name) and v.args[0].id == me and isinstance(v.args[1], ast.JoinedStr) \
+                        and len(v.args[1].values) == 2 and isinstance(v.args[1].values[0], ast.Constant) \
+                        and v.args[1].values[0].value == "_process_" and isinstance(v.args[1].values[1], ast.FormattedValue) \
+                        and is_attr(v.args[1].values[1].value, me, "name") and v.args[1].values[1].conversion == -1
+                    ok = ok and isinstance(e, ast.Assign) and len(e.targets) == 1 and isinstance(e.targets[0], ast.Name) \
+                        and isinstance(e.value, ast.Call) and isinstance(e.value.func, ast.Name) and e.value.func.id == conv \
+                        and len(e.value.args) == 1 and isinstance(e.value.args[0], ast.Name) and e.value.args[0].id == e.targets[0].id \
+                        and not e.value.keywords
+                    if ok:
+                        res.append(ast.copy_location(ast.Assign(targets=[name(e.targets[0].id, ast.Store)],
+                                                                value=self.call("__x6_process", name(me), name(e.targets[0].id))), st))
+                        continue
+                if isinstance(st, ast.Assign) and len(st.targets) == 1 and isinstance(st.targets[0], ast.Subscript) \
+                        and isinstance(st.targets[0].value, ast.Name) and st.targets[0].value.id == alias and alias is not None:
+                    res.append(ast.copy_location(ast.Assign(
+                        targets=[name(inst, ast.Store)],
+                        value=self.call("__x6_setattr_dyn", name(inst), Expr().visit(st.targets[0].slice), Expr().visit(st.value))), st))
+                    continue
+                if isinstance(st, ast.Delete) and len(st.targets) == 1 and isinstance(st.targets[0], ast.Subscript) \
+                        and is_attr(st.targets[0].value, inst, "_raw"):
+                    res.append(ast.copy_location(ast.Assign(
+                        targets=[name(inst, ast.Store)],
+                        value=self.call("__x6_del_item", name(inst), ast.Constant("_raw"), Expr().visit(st.targets[0].slice))), st))
+                    continue
+                if isinstance(st, ast.Return) and st.value is not None:
+                    res.append(ast.copy_location(ast.Return(value=ast.Tuple(elts=[Expr().visit(st.value), name(inst)], ctx=ast.Load())), st))
+                    continue
+                if isinstance(st, (ast.If, ast.Try)):
+                    if isinstance(st, ast.If):
+                        st.test = Expr().visit(st.test)
+                    st.body = stmts(st.body)
+                    st.orelse = stmts(st.orelse)
+                    for h in getattr(st, "handlers", []):
+                        h.body = stmts(h.body)
+                    res.append(st)
+                    continue
+                res.append(Expr().visit(st))
+            return res
+
+        return stmts(node.body)
 
     def params_locals(self):
         return getattr(self, "_params_locals", set())
